@@ -35,12 +35,23 @@ func c17Base(env *progEnv, partials map[string]string, contentType string) *plus
 		s, err := h.BlockWith(nc)
 		return template.HTML(s), err
 	})
-	ctx.Set("partialFeeder", func(n string) (string, error) {
+	feeder := func(n string) (string, error) {
 		if s, ok := partials[n]; ok {
 			return s, nil
 		}
 		return "", fmt.Errorf("no partial %q", n)
-	})
+	}
+	// the feeder is registered as a plain func or as the named type the package
+	// exports for it, depending on the partial texts (deterministic per case)
+	sum := 0
+	for _, t := range partials {
+		sum += len(t)
+	}
+	if sum%2 == 1 {
+		ctx.Set("partialFeeder", plush.PartialFeeder(feeder))
+	} else {
+		ctx.Set("partialFeeder", feeder)
+	}
 	if contentType != "" {
 		ctx.Set("contentType", contentType)
 	}
